@@ -736,8 +736,17 @@ class DatesWorld(World):
         if n in (0, 1, -1):
             # documented special cases: p**0 is the empty span object, p**1 / p**-1 the period itself
             res = self._guard("pow", "degenerate", lambda: p ** n)
-            if n == 0 and len(res) != 0:
-                raise Violation("refine", "pow", "degenerate", "", "p**0 is not empty")
+            if n == 0:
+                # the empty span is a process-wide singleton: nothing done to it may make it (or the next p**0) non-empty
+                def poke():
+                    res.shift(3)
+                    return len(res), list(res), len(p ** 0), list(p ** 0)
+                got = self._guard("pow", "degenerate", poke)
+                if got != (0, [], 0, []):
+                    raise Violation("refine", "pow", "degenerate", "", f"the empty span p**0 is not empty after being shifted: {got}")
+                self.probes["empty_span_singleton_poked"] += 1
+            elif not (letter(res) == f and int(res.serial) == s):
+                raise Violation("refine", "pow", "degenerate", "", "p**1 / p**-1 is not the period itself")
             self._after("pow", "degenerate")
             return "ok"
         nm = SpanM(f, s, s + n - sign(n), sign(n))
